@@ -33,18 +33,18 @@ def run_check(tier, seed):
         c["stdin_text"] = inp
         cmds.append(([c["cmd"]] + c["argv"] + extra, inp))
     t0 = time.time()
-    outs = run_procs(cmds)
+    times = {}
+    outs = run_procs(cmds, times=times)
     run.evaluations += len(cmds)
 
-    # model predictions
-    mreqs = [model_request(c, c["extra"], now) for c in cases]
-    mo = run_lines([ZVM], [r + " | -" for r in mreqs])
+    # model predictions (one per second of the case's own process window)
+    mo = model_texts(cases, [c["extra"] for c in cases], times)
     st = run.streams.setdefault("binary_version_and_flow_semver_pep440", {"cases": 0, "exit0": 0, "exit_nonzero": 0, "model_agree": 0, "model_disagree": 0})
     produced = []
     for c, (rc, out, err), m in zip(cases, outs, mo):
         st["cases"] += 1
         desc = {"argv": [c["cmd"]] + c["argv"] + c["extra"], "stdin": (c["stdin_text"] or b"").decode("utf-8", "replace")[:1500]}
-        model_reply = m.partition("\t")[0]
+        model_reply = m[0]
         if panicked(rc, err):
             run.add_violation("oracle", {"stream": "binary", "what": "panic", "described": desc, "rc": rc, "stderr": err.decode("utf-8", "replace")[-600:]}, True)
             continue
@@ -59,7 +59,7 @@ def run_check(tier, seed):
             produced.append((c, v, desc))
             run.nontrivial.add(v)
             want = "OK " + hx(pre + v)
-            if model_reply.startswith("OK ") and mask_now(unhx(model_reply.split(" ")[1]), now) == mask_now(pre + v, now):
+            if text_matches(m, pre + v):
                 st["model_agree"] += 1
             else:
                 st["model_disagree"] += 1
@@ -68,7 +68,7 @@ def run_check(tier, seed):
                                                      "what": "model and binary disagree"}, False)
         else:
             st["exit_nonzero"] += 1
-            if model_reply.startswith("OK"):
+            if all(r.startswith("OK") for r in m):
                 st["model_disagree"] += 1
                 run.disagreements += 1
                 run.add_violation("correspondence", {"stream": "binary", "described": desc, "rc": rc, "stderr": err.decode("utf-8", "replace")[-300:],
